@@ -77,9 +77,12 @@ package vm
 //@ func vm.in
 //@   pure
 //@   panics maybe
+// len() - and with it every builtin that iterates, and open slices - is defined on arrays, slices, maps and
+// strings: it fails only for a value of another kind (C01, C18)
 //@ func vm.length
 //@   pure
 //@   panics maybe
+//@   panics-only-if[not-a-collection] !(rvkind(a) == 17 || rvkind(a) == 21 || rvkind(a) == 23 || rvkind(a) == 24)
 //@ func vm.FetchFn
 //@   pure
 //@   panics maybe
